@@ -2,7 +2,7 @@
 From Coq Require Import List NArith Bool.
 From FS Require Import Sx Model.Path Model.Stat Model.Tree Model.Pattern Model.FilterWalk
   Model.Hardlinks Model.Validator Model.Converge Model.SenderView Model.FilterOpt Glue.C10G.
-From FS Require Model.FollowLinks.
+From FS Require Model.FollowLinks Model.Walk Glue.C09G.
 Import ListNotations.
 Open Scope bool_scope.
 
@@ -90,6 +90,32 @@ Fixpoint list_bytes_eqb (a b : list bytes) : bool :=
   | _, _ => false
   end.
 
+(* ---- FollowPaths are honoured: every symlink the INDEPENDENT resolver of C18 (chroot_resolve:
+        Linux path resolution with the tree as root) traverses for a requested path, and the
+        entry it reaches, is announced.  Judged under C18's side conditions (its known findings)
+        and without exclude patterns (an exclude may legitimately hide a target). ---- *)
+Definition follow_needs (view : list node) (reqs : list bytes) : list (list bytes) :=
+  flat_map (fun p => flat_map (fun r => FollowLinks.traversed r ++
+                                 match FollowLinks.final r with
+                                 | FollowLinks.Reached q => match q with [] => [] | _ => [q] end
+                                 | FollowLinks.Failed => []
+                                 end)
+                              (FollowLinks.chroot_resolve_all FollowLinks.go_match view p)) reqs.
+Definition target_reinterpreted (s : bytes) : bool :=
+  match s with c :: _ => N.eqb c bang | [] => false end ||
+  existsb (N.eqb 92) s || negb (bytes_eqb (trim_space s) s).
+Definition follow_judged (view : list node) (reqs : list bytes) (fl : option (bool * list bytes)) : bool :=
+  match fl with
+  | Some (false, ts) =>
+    FollowLinks.no_revisit FollowLinks.go_match view (FollowLinks.fuel_bound view reqs) reqs
+    && FollowLinks.lexical_safe view reqs && FollowLinks.wild_last_only reqs
+    && FollowLinks.links_literal view && negb (existsb target_reinterpreted ts)
+  | _ => false
+  end.
+Definition follow_honoured (view : list node) (reqs : list bytes) (announced : list stat) : bool :=
+  forallb (fun q => existsb (fun s => bytes_eqb (st_path s) (FollowLinks.key q)) announced)
+          (follow_needs view reqs).
+
 (* kind 1102: input = (view includes excludes [follow]);
    impl = (send_err recv_err hung stats_announced dest_raw opens ptable fl). *)
 Definition run_1102 (input impl : sx) : sx :=
@@ -108,25 +134,28 @@ Definition run_1102 (input impl : sx) : sx :=
                                         if announced_reg p then opened && same else negb opened) opens in
       (* the announced view is the reference-filtered source: reset_spec of C10's naive reference
          for the list the property reads (user patterns in order, then the follow targets) *)
-      let '(shadow, ref_ok) :=
+      let '(shadow, ref_ok, fol_ok) :=
         match sx_list dec_pentry pt, dec_raws inc, dec_raws exc with
         | Some tbl, Some ri, Some re' =>
           let pm := table_pmatch tbl in
-          let ls := stated_list ri (match rest with _ :: _ => dec_fl fls | [] => None end) in
+          let fl := match rest with _ :: _ => dec_fl fls | [] => None end in
+          let ls := stated_list ri fl in
           match mk_cfg ls re' with
           | Some cs =>
             let sh := in_late_shadow_domain pm cs view in
             let judged := wf_source view && source_links_ok view && cfg_dom pm cs view in
-            (sh, negb judged || sx_eqb (enc_stats (reset_spec (reference (keep_naive pm cs) id_map view))) (enc_stats announced))
-          | None => (false, true)
+            let reqs := match rest with f :: _ => match dec_raws f with Some l => l | None => [] end | [] => [] end in
+            (sh, negb judged || sx_eqb (enc_stats (reset_spec (reference (keep_naive pm cs) id_map view))) (enc_stats announced),
+             negb (judged && is_nil re' && follow_judged view reqs fl) || follow_honoured view reqs announced)
+          | None => (false, true, true)
           end
-        | _, _, _ => (false, true)
+        | _, _, _ => (false, true, true)
         end in
       let code := (if ok_stream then 0 else 1) + (if success then 0 else 2) + (if conv then 0 else 4)
-                  + (if opens_ok then 0 else 8) + (if ref_ok then 0 else 16) in
+                  + (if opens_ok then 0 else 8) + (if ref_ok then 0 else 16) + (if fol_ok then 0 else 32) in
       (* walk and Open may only disagree (and a file may only arrive empty) in the late-shadow domain *)
       let s := if shadow && ok_stream && success then [sig s_late_shadow] else [] in
-      verdict impl impl (ok_stream && success && conv && opens_ok && ref_ok)
+      verdict impl impl (ok_stream && success && conv && opens_ok && ref_ok && fol_ok)
               (SL (s ++ SN code :: (if success then converged_diag false [] src dest else [])))%N
     | _, _, _, _ => v_malformed
     end
@@ -219,6 +248,8 @@ Definition run_1103 (input impl : sx) : sx :=
      S2 calls = reset_spec of the naive reference for the STATED list (user patterns in order ++ the
         targets the real FollowLinks returned): the view is what the include list says;
      S3 walk and Open agree on every regular file of the source (no map function);
+     S4 every symlink the independent resolver (C18's chroot_resolve) traverses for a FollowPaths
+        entry, and the entry it reaches, is announced (no exclude patterns, C18's side conditions);
    S2/S3 judged outside the late-shadow / unsafe-literal domains of that list. *)
 Definition run_1104 (input impl : sx) : sx :=
   match input with
@@ -262,13 +293,17 @@ Definition run_1104 (input impl : sx) : sx :=
             let announced (p : list N) := existsb (fun s => bytes_eqb (st_path s) p) icalls in
             let s3 := forallb (fun o => let '(p, a) := o in if announced p then N.eqb a 1 else N.eqb a 0) iopens
                       && Nat.eqb (length iopens) (length regs) in
+            let fl := match follow with [] => None | _ => dec_fl fls end in
             let j1 := negb src_ok || s1 in
             let j2 := negb (src_ok && dom) || s2 in
             let j3 := negb (src_ok && dom) || s3 in
-            let code := (if j1 then 0 else 1) + (if j2 then 0 else 2) + (if j3 then 0 else 4) in
+            (* S4: FollowPaths are honoured (independent resolver of C18) *)
+            let j4 := negb (src_ok && dom && is_nil excr && follow_judged view follow fl)
+                      || follow_honoured view follow icalls in
+            let code := (if j1 then 0 else 1) + (if j2 then 0 else 2) + (if j3 then 0 else 4) + (if j4 then 0 else 8) in
             if src_ok && shadow && negb s3 && j1
             then verdict model impl' false (SL [sig s_late_shadow; SN 16])%N
-            else verdict model impl' (j1 && j2 && j3)
+            else verdict model impl' (j1 && j2 && j3 && j4)
                          (SL [SN code; of_bool src_ok; of_bool shadow; of_bool dom])%N
           | None => v_malformed
           end
@@ -280,4 +315,71 @@ Definition run_1104 (input impl : sx) : sx :=
     | _, _, _, _ => v_malformed
     end
   | _ => v_malformed
+  end.
+
+(* kind 1105: an on-disk source walked by the real NewFS; the paths [hidden] (non-directories) are
+   hidden AFTER the base walk registered their inode (MapFunc exclude, or an outer exclude filter over
+   an inner pass-through filter); announce; transfer TWICE into the same destination.
+   input = (view hidden stack);
+   impl  = (src_snapshot calls (se1 re1 hung1) dest1 #reqs1 (se2 re2 hung2) dest2 #reqs2).
+   Model: C09's model of fs.Walk (Model/Walk.v) on the tree built from the INDEPENDENT snapshot of the
+   source, minus the hidden paths, then hardlink_reset.
+   Specification on the implementation's output:
+     A1 every announced non-directory carries the SIZE the snapshot shows for its path (C09 walk_stat
+        + reset_representative: the entry the reset turns back into a file keeps its full size);
+     A2 both validators accept the announced stream;
+     A3 the announced stream is reset_spec of (walk minus hidden);
+     A4 every announced entry carries the xattrs the snapshot shows for its path; B3 every regular
+        file of the destination has the xattrs of the source entry at its path;
+     B1 the first transfer succeeds and the destination converged to the announced view;
+     B2 the second, unchanged transfer succeeds, requests NO content and leaves the destination
+        snapshot (inode numbers and link counts included) exactly as it was. *)
+Definition run_1105 (input impl : sx) : sx :=
+  match input, impl with
+  | SL [_; hid; _], SL [ss; calls; SL [SN se1; SN re1; SN h1]; d1; SN q1; SL [SN se2; SN re2; SN h2]; d2; SN q2] =>
+    match sx_list sx_B hid, sx_list C09G.dec_raw ss, sx_list Converge.dec_raw ss, sx_list dec_stat calls,
+          sx_list Converge.dec_raw d1 with
+    | Some hidden, Some snap, Some sraw, Some icalls, Some dest1 =>
+      match C09G.build_tree (Walk.T C09G.root_rec []) snap with
+      | None => v_malformed
+      | Some t =>
+        let full := Walk.walk t in
+        let is_hidden (p : list N) := existsb (bytes_eqb p) hidden in
+        let visible := filter (fun s => negb (is_hidden (st_path s))) full in
+        let hidden_files := forallb (fun s => negb (is_hidden (st_path s)) || negb (st_is_dir s)) full in
+        let judged := hidden_files && wf_links visible in
+        let model := SL [SL (map enc_stat (hardlink_reset visible))] in
+        let impl' := SL [calls] in
+        let a1 := forallb (fun s => st_is_dir s ||
+                             match find_raw (st_path s) sraw with
+                             | Some d => N.eqb (st_size s) (r_size d)
+                             | None => false
+                             end) icalls in
+        let a2 := sx_eqb (of_optnat (run_validator (map vitem_of_stat icalls))) (SL [])
+                  && sx_eqb (of_optnat (hardlink_check icalls)) (SL []) in
+        let a3 := sx_eqb (SL (map enc_stat (reset_spec visible))) calls in
+        (* A4: every announced entry carries the xattrs llistxattr / lgetxattr show for its path
+           (all names of an inode share them; no com.apple.* keys are generated) *)
+        let a4 := forallb (fun s => match find_raw (st_path s) sraw with
+                                    | Some d => xattrs_eqb (st_xattrs s) (r_xattrs d)
+                                    | None => false
+                                    end) icalls in
+        let src := map (fun s => (s, match find_raw (st_path s) sraw with Some d => r_content d | None => [] end)) icalls in
+        let b1 := N.eqb se1 0 && N.eqb re1 0 && N.eqb h1 0 && converged false [] src dest1 in
+        (* B3: every regular file of the destination has the xattrs of the SOURCE entry at its path *)
+        let b3 := forallb (fun d => negb (N.eqb (N.land (r_mode d) Converge.S_IFMT) Converge.S_IFREG) ||
+                             match find_raw (r_path d) sraw with
+                             | Some o => xattrs_eqb (r_xattrs d) (r_xattrs o)
+                             | None => false
+                             end) dest1 in
+        let b2 := N.eqb se2 0 && N.eqb re2 0 && N.eqb h2 0 && N.eqb q2 0 && sx_eqb d1 d2 in
+        let code := (if a1 then 0 else 1) + (if a2 then 0 else 2) + (if a3 then 0 else 4)
+                    + (if b1 then 0 else 8) + (if b2 then 0 else 16) + (if a4 then 0 else 32) + (if b3 then 0 else 64) in
+        verdict model impl' (negb judged || (a1 && a2 && a3 && a4 && b1 && b2 && b3))
+                (SL (SN code :: of_bool judged :: (if b1 then [] else converged_diag false [] src dest1)))%N
+      end
+    | _, _, _, _, _ => v_malformed
+    end
+  | _, SL [SN _] => v_ok      (* the harness could not materialise the view (not judged) *)
+  | _, _ => v_malformed
   end.
